@@ -5,9 +5,9 @@ META = {
     "property_id": "C07",
     "technique": "Coq stutter lemmas for every class of ignored traffic + non-interference theorem by induction over histories + two-run oracle (history with and without insertions) evaluated in Coq on implementation traces + trace correspondence",
     "category": "proof",
-    "text": "Proved on the port model for every frame, timestamp and port state: frames of another domain/sdoId, other PTP version or malformed; Announces bearing the port's own identity or from outside the acceptable master list; Sync/Follow_Up/Delay_Resp not from the port's selected master or answering someone else's request — each leaves port state, data sets, RNG position and pending actions unchanged and emits nothing but lock reads (stutter). By induction over histories of any length, inserting stuttering events changes neither the final state nor any other event's result. On the implementation, the harness runs each generated history twice (with and without inserted frames of these classes, classified by the oracle itself from the property text and the getters) and ok_C07 requires the run with insertions to be identical, event by event, after erasing the insertions.",
+    "text": "Whole histories: C07_main - for every valid set-up, EVERY valid event list and EVERY set of insertion positions the complete oracle ok_C07 accepts the model's own pair of runs (history with / without the inserted events): an inserted event of an ignorable class produces nothing but lock reads and leaves every getter unchanged, every other event produces exactly what it produces in the base run. C07_ignorable_stutters_reachable: in every reachable state every frame of ANY ignorable class (Announce class included) is a stuttering step; C07_slave_follows_parent: a slave port's selected master always equals parentDS.parentPortIdentity. Proved on the port model for every frame, timestamp and port state: frames of another domain/sdoId, other PTP version or malformed; Announces bearing the port's own identity or from outside the acceptable master list; Sync/Follow_Up/Delay_Resp not from the port's selected master or answering someone else's request — each leaves port state, data sets, RNG position and pending actions unchanged and emits nothing but lock reads (stutter). By induction over histories of any length, inserting stuttering events changes neither the final state nor any other event's result. On the implementation, the harness runs each generated history twice (with and without inserted frames of these classes, classified by the oracle itself from the property text and the getters) and ok_C07 requires the run with insertions to be identical, event by event, after erasing the insertions.",
     "design_ref": "DESIGN.md section 6 (C07)",
-    "level_note": "Theorems closed under the global context. The Sync/Follow_Up/Delay_Resp lemmas are stated for the port-local remote master; that it always equals parentDS.parentPortIdentity for a slave port (slave_remote_master_eq_parent) and that a slave port's parent is always acceptable to it are invariants checked on traces (the oracle judges by parentDS) but not yet proved.",
+    "level_note": "Theorems closed under the global context. The invariants the earlier lemmas assumed are now proved for every reachable state: slave_follows_parent (ParentInv.v) and inst_acc (MainC07b.v: every stored foreign-master record and every slave port's selected master passed the acceptable-master filter and is not the port itself). Not modelled: the network below the port interface.",
 }
 
 S = portcheck.make(
